@@ -457,4 +457,3 @@ Proof.
   rewrite Hst2. reflexivity.
 Qed.
 
-Print Assumptions strict_load_inc.
